@@ -306,6 +306,9 @@ class Interp:
                 return Iv(ct[2], ct[2]) if ct[2] == ct[2] else Iv(0.0, 0.0, True)
             if isinstance(ct, tuple) and ct[0] == 'const' and isinstance(ct[2], int):
                 return ct[2]
+        if nm and o.get('ty') and not any(o['ty'].startswith(x) for x in ('f64', 'f32', 'i', 'u', 'bool', '&', '[', '(')):
+            # an associated or named constant of a struct type that is only passed on (a bitflags value, ..): itself
+            return Sym(('const', nm))
         raise Unsupported('const ' + str(o)[:120])
 
     def get_path(self, v, proj, st):
@@ -1330,6 +1333,62 @@ def h_vec_index(I, st, a, t, b):
     return h_index_range(I, st, a, t, b)
 
 
+def _seq_of(I, st, x):
+    v = _deref_arg(I, st, x)
+    while isinstance(v, tuple) and v and v[0] in ('ref', 'refval', 'mref'):
+        v = I.deref(v, st)
+    if isinstance(v, (tuple, list)) and not (v and v[0] == 'enum'):
+        return tuple(v)
+    raise Unsupported('sequence expected, got %r' % (v,))
+
+
+def h_is_empty(I, st, a, t, b):
+    return len(_seq_of(I, st, a[0])) == 0
+
+
+def h_seq_last(I, st, a, t, b):
+    s = _seq_of(I, st, a[0])
+    return SOME(('refval', s[-1], ())) if s else NONE
+
+
+def h_seq_first(I, st, a, t, b):
+    s = _seq_of(I, st, a[0])
+    return SOME(('refval', s[0], ())) if s else NONE
+
+
+def h_seq_get(I, st, a, t, b):
+    s = _seq_of(I, st, a[0])
+    k = a[1]
+    if isinstance(k, int) and not isinstance(k, bool):
+        return SOME(('refval', s[k], ())) if 0 <= k < len(s) else NONE
+    raise Unsupported('get(%r)' % (k,))
+
+
+def h_iter_once(I, st, a, t, b):
+    return {'#iter': 'seq', 'items': (a[0],), 'pos': 0}
+
+
+def h_iter_chain(I, st, a, t, b):
+    return {'#iter': 'seq', 'items': tuple(_items_of(I, st, a[0])) + tuple(_items_of(I, st, a[1])), 'pos': 0}
+
+
+def h_windows(I, st, a, t, b):
+    s = _seq_of(I, st, a[0])
+    n = a[1]
+    if not (isinstance(n, int) and n > 0):
+        raise Unsupported('windows(%r)' % (n,))
+    return {'#iter': 'seq', 'items': tuple(('refval', tuple(s[i:i + n]), ()) for i in range(0, len(s) - n + 1)), 'pos': 0}
+
+
+def h_opt_unwrap(I, st, a, t, b):
+    v = _deref_arg(I, st, a[0])
+    if isinstance(v, tuple) and v and v[0] == 'enum':
+        if v[1] == 1 and len(v[2]) == 1:
+            return v[2][0]
+        raise Undecided('unwrap of None')
+    raise Unsupported('unwrap of %r' % (v,))
+
+
 def h_range_inclusive(I, st, a, t, b):
     lo, hi = a[0], a[1]
     if isinstance(lo, int) and isinstance(hi, int):
@@ -1464,5 +1523,7 @@ BUILTINS.update({
     'Iterator::zip': h_zip, 'Iterator::map': h_iter_map, 'Iterator::all': h_iter_all, 'Iterator::any': h_iter_any,
     'Iterator::find': h_iter_find, 'Iterator::collect': h_iter_collect, 'Iterator::copied': h_iter_copied, 'Iterator::cloned': h_iter_copied,
     'array::map': h_array_map, 'array::from_fn': h_array_from_fn, 'RangeInclusive::new': h_range_inclusive, 'PartialOrd::partial_cmp': h_partial_cmp,
+    'Vec::is_empty': h_is_empty, 'slice::is_empty': h_is_empty, 'slice::last': h_seq_last, 'slice::first': h_seq_first, 'slice::get': h_seq_get,
+    'iter::once': h_iter_once, 'sources::once': h_iter_once, 'once::once': h_iter_once, 'Iterator::chain': h_iter_chain, 'slice::windows': h_windows, 'Option::unwrap': h_opt_unwrap,
     'Index::index': h_vec_index, 'Vec::new': h_vec_new, 'Vec::with_capacity': h_vec_new, 'Vec::push': h_vec_push, 'slice::iter_mut': h_iter_mut, 'Vec::iter_mut': h_iter_mut, 'Iterator::filter': h_iter_filter, 'Iterator::filter_map': h_iter_filter_map, 'Extend::extend': h_extend, 'Vec::extend': h_extend,
 })
